@@ -51,7 +51,7 @@ SenderVector(d, ki) ==
   Vector("akamac_sender",
     [j \in 1..Len(OpsPool) |->
        Step("aka_mac", "C15", FALSE, [eap |-> IF j % 2 = 0 THEN stale ELSE d, key |-> key, ops |-> OpsPool[j], site |-> "sender-ops" \o ToString(j)],
-            [panic |-> FALSE, err |-> FALSE, mac |-> MacT(key, sent), again |-> TRUE])])
+            [panic |-> FALSE, err |-> FALSE, mac |-> MacT(key, sent), again |-> TRUE, stable |-> TRUE])])
 
 \* receiver side: W-form packets from the independent encoder in a given attribute order, with given reserved octets;
 \* the transmitted MAC is the code over the wire octets; the receiver must obtain it -- and another one if an octet or the key differs
@@ -69,17 +69,20 @@ ReceiverVector(w, ki, cls) ==
        Step("aka_mac", "C15", FALSE, [wire |-> b0, key |-> FillT("seeded", 32, 99), site |-> cls \o "-otherkey"],
             [panic |-> FALSE, err |-> FALSE, mac |-> MacT(FillT("seeded", 32, 99), b0)]) >>)
 
+Confusable(n) == [q \in 1..n |-> << 11, 5, 0, 0 >>[((q - 1) % 4) + 1]]
 MacBase(j) == CASE j = 1 -> Aka(1, 9, 1, << AV(AT_RAND, 16), AV(AT_AUTN, 16), AV(AT_MAC, 16), AV(AT_KDF_INPUT, 11), AV(AT_KDF, 2) >>)
                 [] j = 2 -> Aka(2, 10, 1, << AV(AT_RES, 8), AV(AT_MAC, 16) >>)
                 [] j = 3 -> Aka(2, 11, 1, << AV(AT_RES, 5), AV(AT_MAC, 16), AV(AT_CHECKCODE, 20) >>)
                 [] j = 4 -> Aka(1, 12, 5, << AV(AT_MAC, 16) >>)
                 [] j = 5 -> Aka(1, 13, 1, << AV(AT_RAND, 16), AV(AT_AUTN, 16), AV(AT_RES, 7), AV(AT_MAC, 16) >>)
+                \* values that look like structure: words that read as an AT_MAC / AT_RAND attribute header
+                [] j = 6 -> Aka(1, 14, 1, << [t |-> AT_RAND, v |-> Confusable(16)], [t |-> AT_AUTN, v |-> Confusable(16)], [t |-> AT_RES, v |-> Confusable(8)], AV(AT_MAC, 16) >>)
 ReceiverSet ==
   UNION { LET w == EapPlain(MacBase(j)) n == Len(w.attrs) IN
           { << [w EXCEPT !.attrs = Permute(w.attrs, f)], IF \A a \in 1..(n - 1) : f[a] < f[a + 1] THEN "recv-canonical" ELSE "recv-order" >> : f \in Perms(n) }
           \cup { << [w EXCEPT !.rsv = 513], "recv-rsv" >>,
                  << [w EXCEPT !.attrs = [a \in 1..n |-> IF w.attrs[a].t \in AkaFixed16 THEN [w.attrs[a] EXCEPT !.rsv = 258] ELSE w.attrs[a]]], "recv-rsv" >> }
-          : j \in 1..5 }
+          : j \in 1..6 }
 ReceiverSeq == SetToSeqAny(ReceiverSet)
 
 \* ---- C16
@@ -103,7 +106,8 @@ Next == \/ stage = 0 /\ stage' = 1 /\ kind' \in {"eap", "code", "set", "sender",
 Vec == CASE kind = "eap" -> EapVector(EapPool[i])
          [] kind = "code" -> CodeVector(i - 1)
          [] kind = "set" -> SetterVector(SetTypes[i])
-         [] kind = "sender" -> IF EapPool[i].m = "aka" THEN SenderVector(EapPool[i], (i % Len(KautPool)) + 1) ELSE Vector("skip", << Step("eap_encode", "C14", TRUE, [eap |-> EapPool[i]], NoCrash) >>)
+         [] kind = "sender" -> IF i <= 6 THEN SenderVector(MacBase(i), (i % Len(KautPool)) + 1)
+                               ELSE IF EapPool[i].m = "aka" THEN SenderVector(EapPool[i], (i % Len(KautPool)) + 1) ELSE Vector("skip", << Step("eap_encode", "C14", TRUE, [eap |-> EapPool[i]], NoCrash) >>)
          [] kind = "receiver" -> ReceiverVector(ReceiverSeq[i][1], (i % 2) + 1, ReceiverSeq[i][2])
          [] OTHER -> PrfVector(((i - 1) % 7) + 1, (((i - 1) \div 7) % 7) + 1, ((i - 1) \div 49) + 1)
 Emit == stage = 2 => PrintT(ToJson(Vec))
